@@ -29,7 +29,9 @@ TRUSTED = [
     "modelled, compared on every run, not verified: bufio.ReadRune UTF-8 decoding, strconv.Unquote, strconv.Quote, "
     "json.Marshal of strings, big.Int SetString/String, encoding/json as the reference JSON reader",
     "abstract (Section variables with stated laws): strconv.ParseFloat, json.Marshal of float64, unicode.IsPrint",
-    "not modelled: token positions, error message texts, the user's TypeMaker and the struct it decodes into",
+    "not modelled: positions of parser errors (checked to be token starts), error message texts; the user's TypeMaker is a parameter of the model (a type is "
+    "unknown, or comes with the predicate 'strict decoding accepts this JSON text', which the harness computes with "
+    "encoding/json itself)",
 ]
 
 
@@ -110,12 +112,21 @@ def to_coq(c):
     if o.get("crash") or o.get("outhex"):
         return None
     op = c["op"]
-    if op == "file":
+    if op in ("file", "gort", "runes"):
         return "CUtf8 [] []"      # compared by the oracle only
     if op == "utf8":
         return "CUtf8 %s %s" % (inbytes(c), nlist(o.get("out") or []))
     if op == "raw":
         return "CRaw %s %s %s" % (inbytes(c), toks(o.get("toks")), errs(o.get("errs")))
+    if op == "rawpos":
+        pl = o.get("pos") or []
+        if not pl:
+            return None
+        pp = lambda xy: "(%d,%d)" % (xy[0], xy[1])
+        if any(x < 0 for xy in pl + (o.get("epos") or []) for x in xy):
+            return None
+        return "CRawPos %s [%s] %s [%s]" % (inbytes(c), ";".join(pp(x) for x in pl[:-1]), pp(pl[-1]),
+                                          ";".join(pp(x) for x in o.get("epos") or []))
     if op == "filtered":
         return "CFiltered %s %s %s" % (inbytes(c), toks(o.get("toks")), errs(o.get("errs")))
     if op == "ptokens":
@@ -139,7 +150,20 @@ def to_coq(c):
         if o.get("ok"):
             out = "[" + ";".join("(%s,%s)" % (nlist(it[0] or []), nlist(it[1] or [])) for it in o.get("items") or []) + "]"
         known = "[" + ";".join(ascii_list(k) for k in c.get("known") or []) + "]"
-        return "CSeries %s %s %s %s %s" % (inbytes(c), ftable(o.get("floats")), known, opt(out), errs(o.get("errs")))
+        return "CSeries %s %s %s [] %s %s" % (inbytes(c), ftable(o.get("floats")), known, opt(out), errs(o.get("errs")))
+    if op == "tseries":
+        out = None
+        if o.get("ok"):
+            out = "[" + ";".join("(%s,%s)" % (nlist(it[0] or []), nlist(it[1] or [])) for it in o.get("items") or []) + "]"
+        known = "[" + ";".join(ascii_list(k) for k in c.get("known") or []) + "]"
+        rej = "[" + ";".join("(%s,%s)" % (nlist(it[0] or []), nlist(it[1] or [])) for it in o.get("rejects") or []) + "]"
+        return "CSeries %s %s %s %s %s %s" % (inbytes(c), ftable(o.get("floats")), known, rej, opt(out),
+                                              errs(o.get("errs")))
+    if op == "stream":
+        if o.get("note", "").startswith("More()"):
+            return None
+        return "CStream %s %s %s %d %s" % (inbytes(c), ftable(o.get("floats")), nnlist(o.get("vals") or []),
+                                           o.get("fin", 0), errs(o.get("errs")))
     if op == "shell":
         out = nnlist(o.get("strs") or []) if o.get("ok") else None
         return "CShell %s %s %s" % (inbytes(c), opt(out), errs(o.get("errs")))
@@ -276,7 +300,7 @@ def shrink(ck, case, still_fails, budget=120):
     """Delta-debugging on the input bytes of a failing case, re-running the
     implementation only (the oracle decides).  Returns the smallest failing
     case found (possibly the original)."""
-    if case["op"] not in ("tojson", "unmarshal", "series", "shell", "ptokens", "raw", "filtered"):
+    if case["op"] not in ("tojson", "unmarshal", "series", "tseries", "stream", "shell", "ptokens", "raw", "rawpos", "filtered"):
         return case
     binp = os.path.join(vlib.BUILD, "bin", "jsonx")
     if not os.path.exists(binp):
